@@ -33,6 +33,7 @@ def warm_database() -> None:
 def run_one(prop, ctx: core.Ctx, idx: int, case: dict, timeout_s: int) -> None:
     ctx.begin_case(idx, case)
     t0 = time.monotonic()
+    c0 = time.process_time()
     signal.signal(signal.SIGALRM, _alarm)
     signal.alarm(timeout_s)
     try:
@@ -53,7 +54,7 @@ def run_one(prop, ctx: core.Ctx, idx: int, case: dict, timeout_s: int) -> None:
             ctx._emit({"t": "harness_error", "i": idx, "case": core.jsonable(case), "tb": tb[-2000:]})
     finally:
         signal.alarm(0)
-    ctx._emit({"t": "case_end", "i": idx, "s": round(time.monotonic() - t0, 4)})
+    ctx._emit({"t": "case_end", "i": idx, "s": round(time.monotonic() - t0, 4), "cpu": round(time.process_time() - c0, 4)})
 
 
 def main(argv: list[str]) -> int:
